@@ -971,9 +971,15 @@ class AbsExec:
         if name == "vars" and len(args) == 1 and isinstance(args[0], MObj):
             return args[0].fields  # the live attribute dictionary
         if name == "setattr" and len(args) == 3 and isinstance(args[0], MObj) and isinstance(args[1], str):
+            prop = self.properties.get((args[0].cls, args[1]))
+            if prop is not None and prop[1] is not None:  # a property with a setter: setattr() goes through it, as an assignment does
+                self.call_closure(Closure(prop[1].node, {}), [args[0], args[2]], {}, e)
+                return None
             args[0].fields[args[1]] = args[2]
             return None
         if name == "getattr" and len(args) >= 2 and isinstance(args[0], MObj) and isinstance(args[1], str):
+            if args[1] not in args[0].fields and (args[0].cls, args[1]) in self.properties:
+                return self.attr(args[0], args[1], e)  # a property: getattr() runs its getter
             if args[1] in args[0].fields:
                 return args[0].fields[args[1]]
             if len(args) == 3:
